@@ -7,7 +7,6 @@ import (
 	"errors"
 	"fmt"
 	"io"
-	"log"
 	"math"
 
 	"github.com/foxglove/mcap/go/mcap"
@@ -20,6 +19,7 @@ var (
 
 var (
 	ErrTooManyConnections = fmt.Errorf("bag contains connection ID > %d", math.MaxUint16)
+	ErrNotABag            = errors.New("not a bag")
 )
 
 type BagOp byte
@@ -45,8 +45,14 @@ func headerToMap(header []byte) (map[string]string, error) {
 	offset := 0
 	m := make(map[string]string)
 	for offset < len(header) {
+		if len(header)-offset < 4 {
+			return nil, fmt.Errorf("short buffer")
+		}
 		fieldlen := binary.LittleEndian.Uint32(header[offset : offset+4])
 		offset += 4
+		if int64(fieldlen) > int64(len(header)-offset) {
+			return nil, fmt.Errorf("field length %d exceeds remaining header length %d", fieldlen, len(header)-offset)
+		}
 		index := bytes.IndexByte(header[offset:offset+int(fieldlen)], '=')
 		if index < 0 {
 			return nil, fmt.Errorf("missing kv separator")
@@ -74,6 +80,9 @@ func extractHeaderValue(header []byte, key []byte) ([]byte, error) {
 		if err != nil {
 			return nil, fmt.Errorf("failed to extract field length: %w", err)
 		}
+		if int64(fieldlen) > int64(len(header)-offset) {
+			return nil, fmt.Errorf("field length %d exceeds remaining header length %d", fieldlen, len(header)-offset)
+		}
 		field := header[offset : offset+int(fieldlen)]
 		separatorIdx := bytes.Index(field, []byte{'='})
 		if separatorIdx < 0 {
@@ -99,10 +108,10 @@ func processBag(
 		magic := make([]byte, len(BagMagic))
 		_, err := io.ReadFull(r, magic)
 		if err != nil {
-			log.Fatal(err)
+			return fmt.Errorf("failed to read bag magic: %w", err)
 		}
 		if !bytes.Equal(magic, BagMagic) {
-			log.Fatal("not a bag")
+			return ErrNotABag
 		}
 	}
 
@@ -129,6 +138,9 @@ func processBag(
 			return err
 		}
 		headerlen := binary.LittleEndian.Uint32(buf[:4])
+		if headerlen > math.MaxInt32 {
+			return fmt.Errorf("header length %d out of range", headerlen)
+		}
 
 		// header
 		if len(header) < int(headerlen) {
@@ -147,11 +159,17 @@ func processBag(
 			return err
 		}
 		datalen := binary.LittleEndian.Uint32(buf[4:8])
+		if datalen > math.MaxInt32 {
+			return fmt.Errorf("data length %d out of range", datalen)
+		}
 
 		// opcode
 		opcode, err := extractHeaderValue(headerData, headerOp)
 		if err != nil {
 			return err
+		}
+		if len(opcode) == 0 {
+			return fmt.Errorf("empty op field")
 		}
 
 		if opcode[0] == OpBagChunk {
@@ -246,7 +264,10 @@ func Bag2MCAP(w io.Writer, r io.Reader, opts *mcap.WriterOptions, messageCallbac
 			if err != nil {
 				return err
 			}
-			connID := binary.LittleEndian.Uint32(conn)
+			connID, _, err := getUint32(conn, 0)
+			if err != nil {
+				return fmt.Errorf("failed to read connection ID: %w", err)
+			}
 			topic, err := extractHeaderValue(header, headerTopic)
 			if err != nil {
 				return err
@@ -294,10 +315,16 @@ func Bag2MCAP(w io.Writer, r io.Reader, opts *mcap.WriterOptions, messageCallbac
 			if err != nil {
 				return err
 			}
-			connID := binary.LittleEndian.Uint32(conn)
+			connID, _, err := getUint32(conn, 0)
+			if err != nil {
+				return fmt.Errorf("failed to read connection ID: %w", err)
+			}
 			time, err := extractHeaderValue(header, headerTime)
 			if err != nil {
 				return err
+			}
+			if len(time) < 8 {
+				return fmt.Errorf("invalid time field length %d", len(time))
 			}
 			nsecs := rosTimeToNanoseconds(time)
 			channelID, err := channelIDForConnection(connID)
